@@ -1,6 +1,7 @@
 package props
 
 import (
+	"strings"
 	"time"
 
 	"verif/mc/doc"
@@ -159,6 +160,7 @@ func runExprOnCtxs(cfg *evalCfg, w *explore.Worker, s string, ast, base gen.Expr
 		return
 	}
 	w.Sample(s + " on " + docs[len(docs)/2].String())
+	hist := &histTracker{}
 	for _, t := range docs {
 		env := &ref.Env{T: t, NSMap: nsIf(withNS, ns), NavHasURI: navNS}
 		if cfg.Env != nil {
@@ -205,6 +207,7 @@ func runExprOnCtxs(cfg *evalCfg, w *explore.Worker, s string, ast, base gen.Expr
 				}
 				if eng.MatchesMode(o, want, mode) {
 					w.EngOutcome("agree")
+					hist.note(t, ctx, op)
 					continue
 				}
 				// re-run on a fresh compile before attributing
@@ -225,7 +228,14 @@ func runExprOnCtxs(cfg *evalCfg, w *explore.Worker, s string, ast, base gen.Expr
 				w.EngOutcome(class)
 				ec := &evalCase{Expr: s, AST: ast, WithNS: withNS, NS: ns, NavNS: navNS, T: t, Ctx: ctx, Op: op, Mode: mode}
 				sig := prop + "|" + skel + "|ctx=" + ctxKind(t, ctx) + "|" + op + "|" + class
-				w.Violation(ec.toCase("eval", wantString(want, mode), normalise(o, mode), class, sig))
+				vc := ec.toCase("eval", wantString(want, mode), normalise(o, mode), class, sig)
+				if strings.HasPrefix(class, "history:") {
+					// only wrong on the re-used compiled expression: replay with the
+					// evaluations that preceded it
+					hist.attach(vc)
+				}
+				w.Violation(vc)
+				hist.note(t, ctx, op)
 			}
 		}
 	}
